@@ -43,7 +43,7 @@ def _one_run(base, i, tier):
         if v['key'] not in seen:
             seen.add(v['key'])
             uniq.append(v)
-    return {'pd': core.sha(plan)[:20], 'nontrivial': bool(r.get('nontrivial')),
+    return {'pd': core.sha(plan)[:20], 'ed': r.get('digest', '')[:20], 'nontrivial': bool(r.get('nontrivial')),
             'states': [x[:16] for x in (r.get('cache_states') or [])],
             'diagnostics': (r.get('diagnostics') or [])[:2], 'violations': uniq, 'known': sorted(set(known)),
             'plan': plan if uniq else None, 'stats': st,
@@ -54,7 +54,7 @@ def _worker_chunk(args):
     base, idxs, tier, per_chunk_timeout = args
     ad = _ADAPTER
     out = {'n': 0, 'digests': [], 'nontrivial': [], 'stats': {}, 'violations': [], 'harness_errors': [],
-           'states': [], 'diagnostics': [], 'samples': [], 'known': {}}
+           'states': [], 'diagnostics': [], 'samples': [], 'known': {}, 'run_digests': []}
     try:
         if not getattr(_worker_chunk, '_inited', False):
             ad.worker_init()
@@ -67,6 +67,7 @@ def _worker_chunk(args):
                 continue
             out['n'] += 1
             out['digests'].append(one['pd'])
+            out['run_digests'].append((i, one['ed']))
             if one['nontrivial']:
                 out['nontrivial'].append(one['pd'])
             out['states'].extend(one['states'])
@@ -96,7 +97,7 @@ def run_batch(adapter, tier, base, nruns, workers, soft_deadline_s, start=0):
     idxs = list(range(start, start + nruns))
     chunks = [idxs[k:k + CHUNK] for k in range(0, len(idxs), CHUNK)]
     agg = {'n': 0, 'digests': set(), 'nontrivial': set(), 'stats': {}, 'violations': [], 'harness_errors': [],
-           'states': set(), 'diagnostics': [], 'samples': [], 'stopped_by_deadline': False, 'chunks_done': 0, 'known': {}}
+           'states': set(), 'diagnostics': [], 'samples': [], 'stopped_by_deadline': False, 'chunks_done': 0, 'known': {}, 'run_digests': []}
     ctx = multiprocessing.get_context('fork')
     per_chunk_timeout = 600 if tier == 'quick' else 1800
     ex = cf.ProcessPoolExecutor(max_workers=workers, mp_context=ctx)
@@ -129,6 +130,7 @@ def run_batch(adapter, tier, base, nruns, workers, soft_deadline_s, start=0):
                 r = f.result()   # BrokenProcessPool -> harness error upstream
                 agg['n'] += r['n']
                 agg['digests'].update(r['digests'])
+                agg['run_digests'].extend(r['run_digests'])
                 agg['nontrivial'].update(r['nontrivial'])
                 agg['states'].update(r['states'])
                 for k, v in r['stats'].items():
@@ -150,6 +152,8 @@ def run_batch(adapter, tier, base, nruns, workers, soft_deadline_s, start=0):
     finally:
         ex.shutdown(wait=True, cancel_futures=True)
     agg['wall_s'] = time.time() - t0
+    agg['run_digests'].sort()
+    agg['batch_digest'] = core.sha(agg['run_digests'])
     agg['violations'].sort(key=lambda v: v['i'])
     return agg
 
